@@ -311,7 +311,7 @@ class SimplicialComplex(Hypergraph):
         if None in members:
             raise XGIError("None cannot be a node or edge")
 
-        if self.has_simplex(members):
+        if not members or self.has_simplex(members):
             return
 
         if idx in self._edge.keys():  # check that uid is not present yet
